@@ -148,6 +148,46 @@ Example C11_history_nonvacuous :
      = [(0, 5); (1, 14); (2, 2); (3, 2); (4, 2); (5, 5)].
 Proof. exact c11_hist_examples. Qed.
 
+(* round 3 — chains: results of + and * (value-returning: a NEW fiber carrying the left operand's
+   DECLARED shape, None if none was declared — never a frozen estimate) and of the in-place forms
+   become operands of later operations.  One step of a chain computes exactly [step_val] (the
+   pointwise sum / product / scalar add over the whole shape / scaling that the oracle checks on the
+   implementation) and keeps the accumulator well-formed for the declared shape sh ... *)
+Theorem C11_fiber_chain_step : forall sh acc st,
+  wf_fib sh (af_elems acc) = true -> af_shape acc = sh -> step_wf sh st = true ->
+  wf_fib sh (af_elems (chain_step acc st)) = true
+  /\ af_shape (chain_step acc st) = sh
+  /\ forall x, getz x (af_elems (chain_step acc st)) = step_val sh (af_elems acc) st x.
+Proof. exact chain_step_val. Qed.
+Print Assumptions C11_fiber_chain_step.
+
+(* ... so after ANY chain of steps (any length, any mix of fiber/scalar, value-returning/in-place,
+   declared or undeclared shape) a following  r + k  adds over the whole shape of r — for an
+   undeclared shape: up to r's own last stored coordinate — and  r += k,  r *= k  agree with
+   r + k,  r * k. *)
+Theorem C11_fiber_chain : forall sh steps acc k,
+  wf_fib sh (af_elems acc) = true -> af_shape acc = sh -> forallb (step_wf sh) steps = true ->
+  let r := chain acc steps in
+  wf_fib sh (af_elems r) = true /\ af_shape r = sh
+  /\ coordsP (af_elems (st_add_scalar r k)) = zrange (eff_shape sh (af_elems r))
+  /\ (forall x, getz x (af_elems (st_add_scalar r k))
+                = if (0 <=? x) && (x <? eff_shape sh (af_elems r)) then k + getz x (af_elems r) else 0)
+  /\ (forall x, getz x (af_elems (st_iadd_scalar r k)) = getz x (af_elems (st_add_scalar r k)))
+  /\ (forall x, getz x (af_elems (st_imul_scalar r k)) = getz x (af_elems (st_mul_scalar r k))).
+Proof. exact fiber_chain. Qed.
+Print Assumptions C11_fiber_chain.
+
+(* non-vacuity: f without declared shape, g reaching past f; (f + g) + 2 covers 0..4; ({} * 2) += g; += 2 *)
+Example C11_chain_nonvacuous :
+  let f := Build_afib None None [(0, 1); (1, 2)] in
+  let g := Build_afib None None [(1, 10); (3, 20); (4, 30)] in
+  c11_wf (CFibC f [SAddF g] false false (Build_afib None None []) 2) = true
+  /\ af_shape (chain f [SAddF g]) = None
+  /\ af_elems (st_add_scalar (chain f [SAddF g]) 2) = [(0, 3); (1, 14); (2, 2); (3, 22); (4, 32)]
+  /\ af_elems (st_iadd_scalar (chain (Build_afib None None []) [SMulS 2; SIAddF g]) 2)
+     = [(0, 2); (1, 12); (2, 2); (3, 22); (4, 32)].
+Proof. exact c11_chain_examples. Qed.
+
 (* the pinned Fiber.__imul__(fiber) (fiber.py:3286-3296, model fimul_pinned) violates the clause:
    elements of a outside the intersection keep their value.  Witness a = {0:1, 2:2}, b = {2:10}. *)
 Theorem C11_fiber_imul_pinned_refuted :
